@@ -16,6 +16,24 @@ sys.path.insert(0, VERIF)
 from mc import build, core, findings  # noqa: E402
 
 
+def _abbrev(x, keep=40):
+    """a sample as written to the evidence file: a sequence of more than ``keep`` elements (the long-array parts
+    explore inputs of 10^4..10^5 elements) keeps its first ``keep - 8`` and last 8 elements around a marker that
+    states how many were left out, so the evidence file stays a few hundred kB; the replay files keep full cases"""
+    if isinstance(x, list):
+        if len(x) > keep:
+            head, tail = x[:keep - 8], x[-8:]
+            return ([_abbrev(v, keep) for v in head]
+                    + ["... %d of %d elements elided ..." % (len(x) - len(head) - len(tail), len(x))]
+                    + [_abbrev(v, keep) for v in tail])
+        return [_abbrev(v, keep) for v in x]
+    if isinstance(x, dict):
+        return {k: _abbrev(v, keep) for k, v in x.items()}
+    if isinstance(x, str) and len(x) > 2000:
+        return x[:1500] + "... %d of %d characters elided ..." % (len(x) - 1700, len(x)) + x[-200:]
+    return x
+
+
 def write_evidence(ctx, mod, nviol_new, nknown, stage=None):
     parts = ctx.parts
     cov = {}
@@ -28,9 +46,9 @@ def write_evidence(ctx, mod, nviol_new, nknown, stage=None):
         for k in ("first", "last"):
             c = p.stats.get(k)
             if c is not None:
-                samples.append({"part": p.name, "which": k, "case": core._jsonable(c)})
+                samples.append({"part": p.name, "which": k, "case": _abbrev(core._jsonable(c))})
         for v in getattr(p, "violations", [])[:2]:
-            samples.append({"part": p.name, "which": "violating", "case": core._jsonable(v.case),
+            samples.append({"part": p.name, "which": "violating", "case": _abbrev(core._jsonable(v.case)),
                             "message": v.message[:400]})
     cov["states"] = states
     cov["transitions"] = trans
@@ -51,7 +69,7 @@ def write_evidence(ctx, mod, nviol_new, nknown, stage=None):
         st = dict(p.stats)
         st.pop("first", None)
         st.pop("last", None)
-        cov["parts"][p.name] = core._jsonable(st)
+        cov["parts"][p.name] = _abbrev(core._jsonable(st), keep=200)
     cov["known_findings_reported"] = nknown
     cov["notes"] = ctx.notes
     ev = {
@@ -265,15 +283,71 @@ def main():
         ctx.cleanup()
 
 
+def _proc_table():
+    """{pid: (ppid, pgid, starttime)} from /proc"""
+    tab = {}
+    for d in os.listdir("/proc"):
+        if not d.isdigit():
+            continue
+        try:
+            with open("/proc/%s/stat" % d) as f:
+                st = f.read()
+            rest = st[st.rindex(")") + 2:].split()
+            tab[int(d)] = (int(rest[1]), int(rest[2]), int(rest[19]))
+        except (OSError, ValueError, IndexError):
+            pass
+    return tab
+
+
+def _kill_leftovers_of_inherited_group():
+    """the run was started as the leader of a group it did not create (first command of a shell pipeline, or a caller
+    that gave the check a session of its own): the group may hold processes of the caller, e.g. the `tail` the output
+    is piped to, so only what this run started is killed: its descendants, and orphans of the group (re-parented
+    to init or a sub-reaper, i.e. their parent is not in the group any more) that were started after this process"""
+    import signal
+    me = os.getpid()
+    tab = _proc_table()
+    if me not in tab:
+        return
+    mine = {me}
+    grew = True
+    while grew:
+        grew = False
+        for pid, (ppid, _, _) in tab.items():
+            if ppid in mine and pid not in mine:
+                mine.add(pid)
+                grew = True
+    t0 = tab[me][2]
+    myparent = tab[me][0]
+    for pid, (ppid, pgid, start) in tab.items():
+        if pid in mine or pgid != me or start < t0:
+            continue
+        # a sibling started by the caller (same parent as this process) is the caller's; a member of the group whose
+        # parent is neither the caller nor in the group has lost its parent: an orphan of this run
+        if ppid != myparent and (ppid not in tab or tab[ppid][1] != me):
+            mine.add(pid)
+    mine.discard(me)
+    for pid in mine:
+        try:
+            os.kill(pid, signal.SIGTERM)
+        except OSError:
+            pass
+
+
 def _main_in_own_group():
     """run main() as the leader of its own process group and, when it is done, kill whatever the run left behind in
     that group (a library change may keep worker processes alive beyond the call that started them: they would hold
     the check's output pipe open and the check would never end for its caller)"""
     import signal
     try:
-        os.setpgid(0, 0)
+        inherited_leader = os.getpgid(0) == os.getpid()
     except OSError:
-        pass
+        inherited_leader = False
+    if not inherited_leader:
+        try:
+            os.setpgid(0, 0)
+        except OSError:
+            pass
     code = 1
     try:
         code = main()
@@ -281,11 +355,12 @@ def _main_in_own_group():
         sys.stdout.flush()
         sys.stderr.flush()
         try:
-            if os.getpgid(0) == os.getpid():
+            if inherited_leader:
+                _kill_leftovers_of_inherited_group()
+            elif os.getpgid(0) == os.getpid():
                 signal.signal(signal.SIGTERM, signal.SIG_IGN)
                 os.killpg(os.getpid(), signal.SIGTERM)
                 time.sleep(0.05)
-                signal.signal(signal.SIGKILL if False else signal.SIGTERM, signal.SIG_IGN)
         except OSError:
             pass
     return code
